@@ -268,6 +268,8 @@ def read_files(cwd, exclude=()):
             rel = os.path.relpath(p, cwd)
             if rel in exclude:
                 continue
+            if os.path.islink(p) or not os.path.isfile(p):
+                continue    # e.g. a symlink to /dev/full planted by a fault scenario: reading it never ends
             try:
                 with open(p, "rb") as fh:
                     out[rel] = fh.read()
